@@ -71,6 +71,9 @@ type TagValueIterator struct {
 }
 
 func (attr *AllTagTreeReaders) tagTreeFileExists(tagKey string) bool {
+	if !wmetrics.IsTagKeyValidFileName(tagKey) {
+		return false
+	}
 	fName := attr.baseDir + tagKey
 	_, err := os.Stat(fName)
 	return err == nil
@@ -115,6 +118,10 @@ func InitAllTagsTreeReader(tagsTreeBaseDir string) (*AllTagTreeReaders, error) {
 }
 
 func (attr *AllTagTreeReaders) initTagsTreeReader(tagKey string) (*TagTreeReader, error) {
+	// no tags tree file can exist for a key that is not a single path element
+	if !wmetrics.IsTagKeyValidFileName(tagKey) {
+		return nil, utils.NewErrorWithCode(os.ErrNotExist.Error(), fmt.Errorf("initTagsTreeReader: invalid tag key %q", tagKey))
+	}
 	fName := attr.baseDir + tagKey
 
 	fd, err := os.OpenFile(fName, os.O_RDONLY, 0644)
